@@ -114,11 +114,59 @@ def apply_op(m: nn.Module, op: str, orig_state: Dict[str, torch.Tensor]) -> nn.M
         m.load_state_dict(orig_state)
     elif op == "ToggleGrad":
         m.w.requires_grad_(not m.w.requires_grad)
-    elif op == "Transform":
-        m = apply_transform(m, _identity_backend)
+    elif op.startswith("Transform"):
+        m = apply_library_transform(m, op.split(":")[1] if ":" in op else "identity")
     else:
         raise ValueError(op)
     return m
+
+
+# "apply a library transform": every public transform of unit_scaling.transforms (all are lazy: they deep-copy the module
+# and install a new forward; nothing is traced until the module is called), plus apply_transform with a no-op backend
+TRANSFORMS = ["identity", "simulate_fp8", "simulate_format", "unit_scale", "track_scales", "compile"]
+
+
+FINAL_ONLY = ("track_scales", "compile")  # "should always be the final transform in a chain" / "must still come last"
+
+
+def apply_library_transform(m: nn.Module, which: str) -> nn.Module:
+    from unit_scaling import transforms as T
+    from unit_scaling.formats import FPFormat
+    from unit_scaling.transforms.utils import apply_transform
+
+    if which == "identity":
+        return apply_transform(m, _identity_backend)
+    if which == "simulate_fp8":
+        return T.simulate_fp8(m)
+    if which == "simulate_format":
+        return T.simulate_format(m, FPFormat(4, 3), FPFormat(5, 2))
+    if which == "unit_scale":
+        return T.unit_scale(m)
+    if which == "track_scales":
+        return T.track_scales(m)
+    if which == "compile":
+        return T.compile(m)
+    raise ValueError(which)
+
+
+def with_variants(typ: str, depth: int, ops: Tuple[str, ...]) -> Tuple[str, ...]:
+    """Every 'Transform' of a history becomes one named library transform, chosen by a fixed hash of the history (so a
+    replay applies the same one)."""
+    import zlib
+
+    out = []
+    last = max([i for i, o in enumerate(ops) if o == "Transform"], default=-1)
+    for i, o in enumerate(ops):
+        if o == "Transform":
+            # track_scales and compile are documented to be the final transform of a chain: only the last Transform of a history may be one
+            pool = TRANSFORMS if i == last else [t for t in TRANSFORMS if t not in FINAL_ONLY]
+            o = "Transform:" + pool[zlib.crc32(repr((typ, depth, ops, i)).encode()) % len(pool)]
+        out.append(o)
+    return tuple(out)
+
+
+def spec_ops(ops: Any) -> List[str]:
+    return [o.split(":")[0] for o in ops]
 
 
 def applicable(ops: Tuple[str, ...]) -> bool:
@@ -130,7 +178,7 @@ def applicable(ops: Tuple[str, ...]) -> bool:
     for o in ops:
         if o in ("PickleModule", "SaveLoadModule") and seen_t:
             return False
-        if o == "Transform":
+        if o.startswith("Transform"):
             seen_t = True
     return True
 
@@ -195,7 +243,15 @@ def run(rep: Report, tier: str) -> None:
         else:
             sel = combos
         for (t, d) in sel:
-            jobs.append((t, d, ops))
+            jobs.append((t, d, with_variants(t, d, ops)))
+    # every library transform by name, on a trainable and on a frozen parameter, alone and followed by another transform / a copy
+    for v in TRANSFORMS:
+        for pre in ((), ("ToggleGrad",), ("Half",)):
+            for post in ((), ("DeepCopyModule",), ("Transform:" + TRANSFORMS[(TRANSFORMS.index(v) + 1) % len(TRANSFORMS)],)):
+                if v in FINAL_ONLY and post and post[0].startswith("Transform"):
+                    continue
+                for (t, d) in ([("weight", 7), ("output", 0)] if tier == "quick" else [(t, d) for t in TYPES for d in DEPTHS]):
+                    jobs.append((t, d, pre + ("Transform:" + v,) + post))
     rep.exhaustive = tier != "quick"
     # histories the specification does NOT contain (Param.tla `Enabled`): pickling / torch.save of a module AFTER a library transform.
     # They are in the property's quantifier; on the pinned tree they raise.  Judged here explicitly (known finding), not left out.
@@ -213,7 +269,7 @@ def run(rep: Report, tier: str) -> None:
         rep.case((r["t"], r["d"], tuple(r["full_ops"])), nontrivial=len(r["full_ops"]) >= 2)
         if r["err"]:
             rep.violation(f"operation raised in history {r['full_ops']} (type={r['t']}, depth={r['d']}): {r['err']}", r, key=f"raise:{r['err'].split(':')[0]}")
-        traces.append({"t": r["t"], "d": r["d"], "ops": r["ops"], "obs": r["obs"]})
+        traces.append({"t": r["t"], "d": r["d"], "ops": spec_ops(r["ops"]), "named_ops": r["ops"], "full_ops": r["full_ops"], "obs": r["obs"]})
     B = 60000
     for i in range(0, len(traces), B):
         batch = traces[i : i + B]
@@ -222,12 +278,14 @@ def run(rep: Report, tier: str) -> None:
         for (l, k, clause) in out["fails"]:
             tr = batch[l - 1]
             rep.violation(
-                f"history {tr['ops']} (type={tr['t']}, depth={tr['d']}): {clause} after {k-1} operation(s); observed {tr['obs'][k-1]}",
+                f"history {tr['named_ops']} (type={tr['t']}, depth={tr['d']}): {clause} after {k-1} operation(s); observed {tr['obs'][k-1]}",
                 tr,
                 key=f"{clause}:{'/'.join(tr['ops'][:k-1][-2:])}",
             )
     rep.rule = (
-        "all histories over the 11 operations up to length 4 (module pickling after a Transform excluded: not picklable) x 4 tags x 3 depths; "
+        "all histories over the 11 operations up to length 4 (module pickling after a Transform excluded: not picklable) x 4 tags x 3 depths; each Transform is one of "
+        "the six library transforms (apply_transform with a no-op backend, simulate_fp8, simulate_format, unit_scale, track_scales, compile), chosen by a hash of the history, "
+        "plus every named transform on a trainable / frozen / half-precision parameter, alone and followed by a copy or another transform; "
         "quick: all of length<=2, two (tag,depth) combos per length-3 history, 10% of length-4 histories; thorough: all. "
         "non-trivial = history length >= 2"
     )
@@ -246,7 +304,7 @@ def replay(rep: Report, path: str) -> None:
     rep.sample(r)
     if r["err"]:
         rep.violation(f"operation raised: {r['err']}", r, key=f"raise:{r['err'].split(':')[0]}")
-    out = common.validate_traces("Param_Trace", "Param_Trace.cfg", [{"t": r["t"], "d": r["d"], "ops": r["ops"], "obs": r["obs"]}], tag="ptr")
+    out = common.validate_traces("Param_Trace", "Param_Trace.cfg", [{"t": r["t"], "d": r["d"], "ops": spec_ops(r["ops"]), "obs": r["obs"]}], tag="ptr")
     rep.add_trace_result(out)
     for (l, k, clause) in out["fails"]:
         rep.violation(f"history {r['ops']}: {clause} after {k-1} operation(s)", r, key=f"{clause}:{'/'.join(r['ops'][:k-1][-2:])}")
